@@ -399,6 +399,8 @@ func main() {
 	docs = append(docs, handDocs()...)
 	docs = append(docs, policyDocs()...)
 	nFixed := len(docs)
+	docs = append(docs, lookaheadDocs()...)
+	nLook := len(docs) - nFixed
 	versions := []pdf.Version{pdf.V1_4, pdf.V1_7, pdf.V2_0, pdf.V1_7, pdf.V1_3, pdf.V1_6}
 	nw := e.Pick(14, 100)
 	for i := 0; i < nw; i++ {
@@ -431,19 +433,27 @@ func main() {
 			continue
 		}
 		e.Sample(6, map[string]any{"doc": d.name, "class": d.class, "bytes": len(d.data), "objects": len(d.refs)})
+		if d.light {
+			exploreOps(di, d, true)
+			lap("doc:lookahead")
+			if aborted() {
+				break
+			}
+			continue
+		}
 		for si, shape := range faultShapes {
 			// the plain sentinel: everything.  The other shapes of the fault error
 			// (wrapping io.EOF / io.ErrUnexpectedEOF, a malformed look-alike, an Is
 			// method claiming io.EOF, a timeout): the one-shot modes `only` and
 			// `half` - in the quick tier on the hand-written documents and the
 			// first writer-made ones
-			if si > 0 && !(e.Thorough || di < nFixed+1) {
+			if si > 0 && !(e.Thorough || di < nFixed+nLook+1) {
 				break
 			}
 			curShape, errInj, activeModes = shape, shape.err, fmodes
 			if si > 0 {
 				activeModes = []fmode{fmOnly, fmHalf}
-				if di >= nFixed && !e.Thorough {
+				if di >= nFixed+nLook && !e.Thorough {
 					activeModes = []fmode{fmOnly}
 				}
 			}
@@ -453,7 +463,7 @@ func main() {
 				}
 				exploreOpen(di, d, mi)
 			}
-			exploreOps(di, d, e.Thorough || di < nFixed+5)
+			exploreOps(di, d, e.Thorough || di < nFixed+nLook+5)
 			if !strings.Contains(d.class, "objstm") {
 				for mi := range modes {
 					if si > 0 && mi > 0 && !e.Thorough {
@@ -464,7 +474,7 @@ func main() {
 					// Recover mode, from/only in Stop mode; the hand-written and policy
 					// documents get everything
 					saved := activeModes
-					if di >= nFixed && !e.Thorough && si == 0 {
+					if di >= nFixed+nLook && !e.Thorough && si == 0 {
 						if mi == 1 {
 							continue
 						}
